@@ -38,6 +38,12 @@ def run(res, tier, seed, shard, nshards):
                 cases.append(("len", n, mode, pos))
     for i in range(800 if tier == "quick" else 150000):
         cases.append(("rand", i))
+    for where in ("before", "between-messages", "inside-message"):
+        for mi, mode in enumerate(MODES):
+            for n in ((1500,) if tier == "quick" else (1030, 1500, 5000)):
+                if tier == "quick" and (mi + len(where)) % 2:
+                    continue
+                cases.append(("flood", n, mode, where))
 
     def scen():
         for i, c in enumerate(cases):
@@ -51,6 +57,14 @@ def run(res, tier, seed, shard, nshards):
                 b = R.encode(R.CONT, b"llo", fin=1)
                 stream = {"before": ping + a + b, "inside": a + ping + b, "after": a + b + ping}[pos] + R.encode(R.BINARY, b"SENT")
                 judge(res, W, rng, stream, mode, ("len", n, mode, pos), None)
+            elif c[0] == "flood":
+                # a quiet connection on which the server's keep-alive pings (and stray pongs) pile up: every single one is answered
+                _, n, mode, where = c
+                run_ = b"".join(R.encode(R.PING, b"k%d" % j) if j % 7 else R.encode(R.PONG, b"") for j in range(n))
+                a = R.encode(R.TEXT, b"he", fin=0)
+                b = R.encode(R.CONT, b"llo", fin=1)
+                stream = {"before": run_ + a + b, "between-messages": a + b + run_ + R.encode(R.TEXT, b"x"), "inside-message": a + run_ + b}[where] + R.encode(R.BINARY, b"SENT")
+                judge(res, W, rng, stream, mode, ("flood", n, mode, where), None)
             else:
                 stream, npings = rand_stream(rng)
                 mode = rng.choice(MODES)
@@ -95,8 +109,17 @@ def rand_stream(rng):
     return b"".join(parts), npings
 
 
+import logging as _logging
+
+_NULL = _logging.NullHandler()
+
+
 def judge(res, W, rng, stream, mode, tag, cuts):
     name, cf = mode
+    trace_on = (len(stream) + len(cuts or ())) % 3 == 0
+    W.enableTrace(trace_on, handler=_NULL)
+    if trace_on:
+        res.count("cases_with_trace_on")
     nframes = len(R.decode_all(stream)[0])
     script = [(name, cf)] * (nframes + 1)
     segs = None
@@ -113,7 +136,8 @@ def judge(res, W, rng, stream, mode, tag, cuts):
     res.count("order_windows_checked", checked)
     res.count("pings_in_streams", npings)
     res.count(f"mode:{name}:{cf}")
-    case = {"tag": tag, "stream": stream, "mode": mode, "cuts": cuts}
+    W.enableTrace(False)
+    case = {"tag": tag, "stream": stream, "mode": mode, "cuts": cuts, "trace": trace_on}
     for kind, detail, fields in issues + oissues:
         res.violation(kind, f"{tag}: {detail}", case, **fields)
     if npings:
